@@ -9,7 +9,7 @@ CHECKS = {
         level_note="Trusted: the harness' reference equality (lib.Snap.Equal), reflect.DeepEqual / proto.Equal, encoding/json and protobuf libraries. Assumes valid UTF-8 strings and finite floats (as the property states). The value families are the harness' own types plus well-known protobuf types, not the user's.",
         steps=[
             dict(name="copy-equals", run="^(TestCopyLaws|TestEqualsAgreesWithReference)$", quick=6000, thorough=6000000, shards_thorough=8),
-            dict(name="codecs", run="^(TestJSONMarshalerRoundTrip|TestProtoMarshalerRoundTrip|TestGogoMarshalerRoundTrip|TestEnvelopeRoundTrip|TestReplyRoundTrip)$",
+            dict(name="codecs", run="^(TestJSONMarshalerRoundTrip|TestProtoMarshalerRoundTrip|TestGogoMarshalerRoundTrip|TestEnvelopeRoundTrip|TestEnvelopeBatchRoundTrip|TestReplyRoundTrip)$",
                  quick=2500, thorough=2400000, shards_thorough=8),
             # native coverage-guided fuzzing, thorough tier only (cannot be seeded; the saved input is the replay unit)
             dict(name="fuzz-envelope", fuzz="FuzzEnvelopeUnwrap", tiers=("thorough",), fuzztime_thorough=90),
@@ -25,7 +25,9 @@ CHECKS["C03"] = dict(
     level_note="Trusted: porcupine's checker, the race detector, one atomic counter as real-time order. Zero-value messages are not probed concurrently with Ack/Nack (documented data race by design, outside the property).",
     steps=[
         dict(name="exhaustive", run="^TestExhaustiveSequences$", quick=1, thorough=1),
-        dict(name="histories", run="^TestConcurrentHistories$", quick=3000, thorough=1500000, shards_thorough=15),
+        dict(name="histories", run="^TestConcurrentHistories$", quick=3000, thorough=1500000, shards_thorough=13),
+        # zero-value messages with concurrent readers: the field read is racy by design, so no race detector here
+        dict(name="zero-value-readers", run="^TestZeroValueConcurrentReaders$", quick=60, thorough=3000, shards_thorough=2, norace=True),
     ],
 )
 
@@ -54,7 +56,8 @@ CHECKS["C09"] = dict(
     level_note="Trusted: the trace recorder middlewares and the expected-order computation in c09_test.go. Registrations after Run are out of scope.",
     steps=[
         dict(name="exhaustive", run="^TestExhaustiveRegistrations$", quick=1, thorough=1),
-        dict(name="random", run="^TestRandomRegistrations$", quick=2500, thorough=400000, shards_thorough=12),
+        dict(name="random", run="^TestRandomRegistrations$", quick=2500, thorough=400000, shards_thorough=10),
+        dict(name="late-and-shared", run="^(TestLateRegistrations|TestSharedDecoratedSubscriber)$", quick=400, thorough=60000, shards_thorough=4),
     ],
 )
 
